@@ -13,13 +13,14 @@ import (
 	"fmt"
 	"go/types"
 	"io"
+	"strings"
 
 	"golang.org/x/tools/go/ssa"
 )
 
 type sealEntry struct {
 	key, nonce, pt, ad, ct []value
-	adversarial          bool
+	adversarial            bool
 }
 
 type kdfEntry struct {
@@ -38,14 +39,14 @@ type dhElem struct {
 }
 
 type cryptoLog struct {
-	seals   []*sealEntry
-	kdfs    []*kdfEntry
-	dhs     []*dhElem
-	raws    [][]value
-	draws   [][]value
-	weak    [][]value
-	opened  []int // indices of seal entries matched by Open, in order (-1: rejected)
-	scryptN []int64
+	seals     []*sealEntry
+	kdfs      []*kdfEntry
+	dhs       []*dhElem
+	raws      [][]value
+	draws     [][]value
+	weak      [][]value
+	opened    []int // indices of seal entries matched by Open, in order (-1: rejected)
+	scryptN   []int64
 	macChecks int
 }
 
@@ -298,6 +299,9 @@ func extAEADSeal(fr *frame, args []value) value {
 		ctEq := i.bytesEqTerm(s.ct, ct)
 		// same key, nonce: plaintexts equal iff ciphertexts equal
 		e.axiom(implies(st, kn, iff(st, ptEq, ctEq)))
+		// different key, nonce or associated data: the outputs (ciphertext and
+		// tag) differ - an equal output would be a forgery under the other nonce
+		e.axiom(implies(st, st.BNot(kn), st.BNot(ctEq)))
 	}
 	cl.seals = append(cl.seals, &sealEntry{key: key, nonce: nonce, pt: pt, ad: ad, ct: cloneVals(ct)})
 	return append(dst, ct...)
@@ -335,6 +339,14 @@ func extAEADOpen(fr *frame, args []value) value {
 		if len(s.ct) != len(ct) || len(s.ad) != len(ad) {
 			continue
 		}
+		if !sameTerms(i, s.ct, ct) && onlySealOutputs(i, ct) {
+			// The candidate is assembled purely from bytes of sealed outputs
+			// (no attacker-chosen byte in it) but is not this entry's ciphertext
+			// byte for byte: that it nevertheless equals it would be a chance
+			// collision between (parts of) pseudo-random outputs - excluded.
+			e.axiom(st.BNot(i.bytesEqTerm(s.ct, ct)))
+			continue
+		}
 		match := st.And(i.bytesEqTerm(s.key, key), i.bytesEqTerm(s.nonce, nonce), i.bytesEqTerm(s.ad, ad), i.bytesEqTerm(s.ct, ct))
 		if e.branch(match) {
 			cl.opened = append(cl.opened, k)
@@ -344,6 +356,17 @@ func extAEADOpen(fr *frame, args []value) value {
 	// INT-CTXT: nothing that was not sealed under (key, nonce) opens
 	cl.opened = append(cl.opened, -1)
 	return tuple{[]value(nil), errOpen}
+}
+
+// onlySealOutputs: every byte of b is, syntactically, an output byte of some Seal.
+func onlySealOutputs(i *interpreter, b []value) bool {
+	for _, x := range b {
+		sx, ok := x.(sym)
+		if !ok || sx.t.Op != OpVar || !strings.HasPrefix(sx.t.Name, "seal#") {
+			return false
+		}
+	}
+	return true
 }
 
 func (c *cryptoLog) hasSymbolicSeal() bool {
